@@ -142,7 +142,7 @@ def rule_get_stub(ctx: Ctx, repo: Repo) -> None:
     ctx.functions.add(gs.fq)
     ps = gs.positional_params()
     import itertools
-    for n in (0, 1, 2, 3):
+    for n in ((0, 1, 2, 3, 4) if TIER == "thorough" else (0, 1, 2, 3)):
         for pattern in itertools.product(("good", "NameLookupError", "InvalidTypeError"), repeat=n):
             for verbose in (False, True):
                 thunks = K(tuple(R("thunk", id=K(i), outcome=K(o)) for i, o in enumerate(pattern)))
@@ -282,7 +282,12 @@ def rule_params_ignored(ctx: Ctx, repo: Repo) -> None:
     ctx.check(not bad, "R-C10.3", fi.fq, "traced argument names are only looked up, never iterated into new parameters", construct=f"{bad}")
 
 
+TIER = "quick"
+
+
 def run(ctx: Ctx, repo: Repo, tier: str) -> None:
+    global TIER
+    TIER = tier
     ctx.trust("importlib.import_module raises ModuleNotFoundError (an ImportError) for a missing module or submodule",
               "getattr(obj, name) raises AttributeError for a missing attribute, also for '<locals>'",
               "exception matching follows the class hierarchy (read from monkeytype/exceptions.py for the package's own classes)",
